@@ -371,7 +371,13 @@ def scrape_emit():
     """EmitFacts.v: shape of the C++ base clause (C11)."""
     facts, problems = {}, []
     t = read("idlc_codegen_cpp/src/interface/mod.rs")
-    facts["cpp_base_sep_is_space"] = bool(re.search(r'base_iface\.push_str\(&format!\("I\{\} ", ', t)) and bool(re.search(r'format!\(": public \{base_iface\}"\)', t))
+    push = bool(re.search(r'base_iface\.push_str\(&format!\("I\{\} ", ', t)) and bool(re.search(r'format!\(": public \{base_iface\}"\)', t))
+    only_first = bool(re.search(r'\.skip\(1\)\s*\.enumerate\(\)\s*\.for_each\(\|\(depth, iface\)\|\s*\{[^}]*?if depth == 0 \{\s*base_iface\.push_str', t, re.S))
+    # every ancestor pushed and joined by spaces, or only the immediate base
+    facts["cpp_base_sep_is_space"] = push and not only_first
+    facts["cpp_base_only_immediate"] = push and only_first
+    if not push:
+        problems.append("cpp base clause: emission pattern not recognised")
     return facts, problems
 
 
